@@ -24,7 +24,7 @@ RULE = ("seeded enum definitions (1..12 members over int32 incl. 0, negatives, g
         "singular / optional / repeated / oneof / map-value position through bytes->parse and to_dict->json->from_dict keep "
         "their number and compare equal to the integer; mutation attempts on class and members must raise, and the "
         "observable state of the enum class (members, lookups incl. of undeclared numbers) must be the same before and "
-        "after the whole workload. distinct = distinct enum definitions x checked values.")
+        "after the whole workload. Member names include leading underscores / digits (what the plugin emits after prefix stripping); undeclared numbers are copied, deep-copied (alone and in containers) and pickled; repeated fields hold declared and undeclared numbers side by side; class attributes with private / dunder names are assignment targets too. distinct = distinct enum definitions x checked values.")
 ASSUMPTIONS = [
     "lookup by call of an undeclared number raises ValueError (IntEnum semantics); only try_value / field positions are open",
     "'mutation' = attribute assignment / deletion on classes and members and item assignment on __members__ (not writes to private dicts)",
